@@ -752,7 +752,7 @@ def gen_plan(seed, run, finding_shapes=True):
                 if form in ("target_on", "target") and T.TABLE[T.TO_ONE[owner][rel][1]] != rel \
                         and not finding_shapes:
                     form = "rel"
-                if form == "target" and (via or g.paths):
+                if form == "target" and (via or g.paths or g.joins):
                     # join(Target) lets SQLAlchemy infer the ON clause from the most
                     # recently joined entity; only unambiguous on a query without joins
                     form = "target_on"
